@@ -36,6 +36,15 @@ def gen(rng, tier):
                                                                              "k": 3, "o": 3})
                 cases.append({"formula": f"y ~ x + ({e} | {g})", "frame": fr, "na": "drop", "kind": "grid",
                               "effect": e, "group": g})
+    # the same grouping factor written in different factor orders / reached through different operators
+    SAME = [("(1 | g:h)", "(0 + {e} | h:g)"), ("(1 | g/h)", "({e} | h:g)"), ("({e} | h:g)", "(1 | g:h)"),
+            ("(1 | g*h)", "(0 + {e} | h:g)"), ("(1 | h:g)", "({e} | g:h)")]
+    for _ in range(reps):
+        for a, b in SAME:
+            for e in ["f", "x", "x + z", "f + x"]:
+                fr = gen_dm.make_frame(rng, factorial=True, cats=["f", "g", "h"], nlev={"f": 2, "g": rng.choice([2, 3]), "h": 2})
+                cases.append({"formula": f"y ~ x + {a} + {b.format(e=e)}", "frame": fr, "na": "drop", "kind": "same-factor",
+                              "effect": e, "group": "g:h"})
     n = 20000 if tier == "thorough" else 300
     for _ in range(n):
         fr = gen_dm.make_frame(rng)
@@ -105,8 +114,15 @@ def oracle(c):
             return err
         by_factor.setdefault(t.factor.name, []).append((name, Z, own, ng, rowcell))
     # rank: the columns of one grouping factor are independent and span group x effect-cell means
-    if c.get("kind") == "grid":
+    if c.get("kind") in ("grid", "same-factor"):
+        # group the terms by grouping factor regardless of the order its components are written in
+        merged = {}
         for fac, lst in by_factor.items():
+            merged.setdefault(":".join(sorted(fac.split(":"))), []).extend(lst)
+        by_factor = merged
+        for fac, lst in by_factor.items():
+            if c.get("kind") == "same-factor" and fac != "g:h":
+                continue  # the effect expression of this stratum belongs to the factor g:h
             Zall = np.column_stack([z for _, z, _, _, _ in lst])
             rank = np.linalg.matrix_rank(Zall)
             ng = lst[0][3]
